@@ -1005,6 +1005,12 @@ def eol_scan(prog, rep):
                     other = [norm(x) for x in (a0, a1) if x is not None and (x.strip() is None or x.strip().strv is None)]
                     if strs == [b"\r\n"] and a2 is not None and norm(a2) == ("c", 2) and other and other[0] in (("&", ("[]", buf, v)), ("+", buf, v), ("+", v, buf)):
                         ok = True
+                    # the scan made with a pointer: the position answered is (p - buf) of the p the two bytes were compared at
+                    vv = v
+                    while vv[0] == "cast":
+                        vv = vv[-1]
+                    if strs == [b"\r\n"] and a2 is not None and norm(a2) == ("c", 2) and other and vv == ("-", other[0], buf):
+                        ok = True
         # the byte-wise forms: the byte at the answered position is CR (compared, or found by memchr(.., '\r', ..)) and the next is LF
         raw = [(op, L, R, (Le.strip() if Le is not None else None)) for cond, truth in f.edge_conds(r) for op, L, R, Le, _ in cond_atoms(cond, truth)]
         lfs = [L for op, L, R, _ in raw if op == "==" and R == ("c", 10) and L[0] == "[]"]
